@@ -93,6 +93,13 @@ async def main():
             if ex == "exception":
                 marks["exit_start"] = time.monotonic()
                 raise RuntimeError("body failed")
+            if ex in ("deadline_during_exit", "exception_deadline_during_exit"):
+                # leave the body a little before the enclosing deadline: it fires during the grace periods
+                await asyncio.sleep(max(0.0, marks["deadline"] - time.monotonic() - case.get("lead", 0.3)))
+                marks["exit_start"] = time.monotonic()
+                if ex.startswith("exception"):
+                    raise RuntimeError("body failed")
+                return
             await asyncio.sleep(3600)  # cancel / fail_after paths
 
     ex = case["exit"]
@@ -107,6 +114,15 @@ async def main():
                 await t
             except asyncio.CancelledError:
                 obs["body_outcome"] = "cancelled"
+        elif ex in ("deadline_during_exit", "exception_deadline_during_exit"):
+            marks["deadline"] = time.monotonic() + case.get("cancel_after", 1.0)
+            with anyio.move_on_after(case.get("cancel_after", 1.0)) as scope:
+                try:
+                    await body()
+                    obs["body_outcome"] = "returned"
+                except RuntimeError as e:
+                    obs["body_outcome"] = "runtime_error:" + str(e)[:60]
+            obs["outer_deadline_fired"] = scope.cancel_called
         elif ex == "fail_after":
             try:
                 marks["deadline"] = time.monotonic() + case.get("cancel_after", 0.6)
